@@ -1282,8 +1282,23 @@ impl<Sink: TokenSink> Tokenizer<Sink> {
             // Use peek so we can handle the first attr character along with the rest,
             // hopefully in the same zero-copy buffer.
             states::BeforeAttributeValue => loop {
-                match peek!(self, input) {
-                    '\t' | '\n' | '\r' | '\x0C' | ' ' => go!(self: discard_char input),
+                let c = peek!(self, input);
+                // peek() and discard_char() bypass the input preprocessor, so line breaks
+                // are counted here, with CRLF folded into one.
+                let after_cr = self.ignore_lf.replace(false);
+                match c {
+                    '\r' => {
+                        go!(self: discard_char input);
+                        self.ignore_lf.set(true);
+                        self.current_line.set(self.current_line.get() + 1);
+                    },
+                    '\n' => {
+                        go!(self: discard_char input);
+                        if !after_cr {
+                            self.current_line.set(self.current_line.get() + 1);
+                        }
+                    },
+                    '\t' | '\x0C' | ' ' => go!(self: discard_char input),
                     '"' => go!(self: discard_char input; to State::AttributeValue(DoubleQuoted)),
                     '\'' => go!(self: discard_char input; to State::AttributeValue(SingleQuoted)),
                     '>' => {
